@@ -1011,6 +1011,10 @@ func main() {
 		workerMain(w)
 		return
 	}
+	if f := os.Getenv("C19_FRESH"); f != "" {
+		historyFreshMain(f)
+		return
+	}
 	o := hx.ParseFlags()
 	if o.Replay != "" {
 		os.Exit(replay(o))
@@ -1018,6 +1022,7 @@ func main() {
 	rep := hx.NewReport("C19", o.Seed, o.Tier)
 	rep.Rule = "sources: the two witnesses; every subset of 1..4 functions erroneous (4 kinds of error, called from BEGIN or not, with/without native functions); C16's systematic families with <= 4 functions; random programs over small name pools (plain and hostile); large programs (12-40 functions with walk-order dependent creation of globals, 10-35 functions with 1-4 erroneous ones, long chains, the 200-function ring at the pass cut-off); each source parsed 30 times; parser-stage sources with 2-5 unused parenthesised comma lists (the candidate set parser.multiExprs) on different lines with the columns in both orders, on one line, across items, each parsed 80 times. distinct = distinct AWK source; non-trivial = has a function and a call or parameter list"
 	r := hx.NewRand(o.Seed)
+	historyOracle(rep, o.Tier == "thorough")
 	ks := buildCases(o, r)
 	t0 := time.Now()
 	lap := func(what string) {
@@ -1197,6 +1202,8 @@ func replay(o hx.Opts) int {
 			}
 		}
 		fmt.Printf("replay: %d parses of\n%s\nexpected: one outcome\ngot: %v\n", n, k.src, counts)
+	case "history":
+		return replayHistory(d)
 	case "fingerprint":
 		dir, _ := os.MkdirTemp("", "c19")
 		defer os.RemoveAll(dir)
